@@ -42,6 +42,10 @@ CHECKS = {
    technique="TLC model checking of the compositional laws as theorems of Eval; laws checked by TLC on values that were all observed from the real library (whole from text, whole from parts' public ASTs, parts, parts per element)",
    text="TLC shows on the bounded universe of trees x documents that pipe, every projection kind (map-then-drop-nulls), filter (select), multi-select list/hash and ! && || obey the laws in Eval (and Interp = Eval). For 23 left parts x 16 right parts / 10 projection continuations / 8 predicates x 9 documents (33k cases) the driver evaluates with the real library only: the compound compiled from text, the compound built from the parts' public ASTs through Expression::new, each part, and the right-hand side / predicate on every element of the projected subject; TLC applies just the law's combination rule to those observed values and requires equality (errors: the first failing part's error kind).",
    note="Trusted: TLC; the combination rules in TV_Laws.tla. The projected subject of flatten / value / slice projections is observable only after null-dropping, so those laws use right-hand sides that map null to null."),
+ "C12": dict(engine="errors", design="4/C12",
+   technique="TLC model checking of the coordinate computation (Level 1 as coded vs Level 0) over the prefix tree of multi-byte strings and of the error-cursor protocol as a TLA+ state machine; constructor/Display, runtime error sites and compile failures observed on the real library and judged by TLC",
+   text="TLC shows for every string up to 5 (quick) / 7 (thorough) characters over 1-4-byte characters and newline and every character boundary that the line/column computed from the byte offset are the zero-based line and character column, and that the caret line is placed under that column of that line; the byte-counting variant must fail. A TLA+ state machine of the evaluation context's error cursor (EvalArg / Enter / Body / Return over every tree of up to 3 calls with argument and expression-reference children failing early, late or never) shows that an error always carries the offset of the call that raised it and that each search starts fresh; the variant without restore must fail. On the real library TLC judges: JmespathError::new + Display at every boundary of every string <= 4/6; 184 failing (expression, document) pairs (8 prefixes with multi-byte identifiers, newlines and successful calls x 23 failure sites) for class, kind, carried text, offset inside the failing call's parenthesis / the slice brackets and coordinates; and every compile failure among ~14k/70k+ short and random texts for parse class, carried text, boundary offset and coordinates.",
+   note="Trusted: TLC; Errors.tla Coord/Rendered. Known finding F08 (non-finite results reported as parse-class errors with empty expression) is reported as KNOWN-FINDING. Parse-error offsets are only required to be a character boundary inside the text with consistent coordinates (the property does not say which token)."),
 }
 
 def main():
